@@ -144,8 +144,8 @@ CHECKS['C05'] = dict(title='A key designates exactly one argument, independent o
 CHECKS['C06'] = dict(title='Multi-value destinations end up as the fold of all values given', engine='xenum',
     harness=['harness/c06_containers.cpp'], flags='asan', lib=True, level='model_checking', deadline={'quick': 300, 'thorough': 2400}, hang_s=60,
     technique='bounded-exhaustive enumeration: destination kinds x option combinations x ALL element sequences up to a length x EVERY cut into uses, against a reference fold',
-    level_text='13 container kinds + int[3], array, tuple, bitset, vector<bool>, DynamicBitset; every supported combination of separator/clear/sort/unique/multi-value/check/initial content; every sequence of <= 3 (quick) / <= 4 (thorough) elements incl. duplicates and an out-of-range element; every way of cutting the sequence into uses and free values',
-    level_note='trusts the reference fold (placement rules taken from the adapters\' documented behaviour); lists with empty elements and key-value containers are outside',
+    level_text='13 container kinds + int[3], array, tuple, bitset, vector<bool>, DynamicBitset, 4 key-value containers; every supported combination of separator/clear/sort/unique/multi-value/check/initial content; every sequence of <= 3 (quick) / <= 4 (thorough) elements incl. duplicates and an out-of-range element; every way of cutting the sequence into uses and free values',
+    level_note='trusts the reference fold (placement rules taken from the adapters\' documented behaviour); lists with empty elements are outside (no documented meaning)',
     rule='kind x options (odometer) x element sequence x cut (2^(n-1) compositions) x free-value form; states = option configurations accepted by the destination, transitions = evalArguments calls; all cuts of one sequence are compared with the same fold',
     bound={'quick': 'sequences <= 3 over {0,1,2,7} / {a,b,B}; separators , ;', 'thorough': 'sequences <= 4; separators , ; .'},
     assumptions=['option combinations a destination refuses at definition time are skipped and counted', 'unordered containers are compared as multisets'])
